@@ -34,8 +34,17 @@ NAME_CLASSES = {
         "a": "a(b", "b": "b)c", "c": "c:d", "d": "d,e", "e": "e;f", "f": "f[g]", "g": "g][",
         "n1": "n1(", "n2": "n2,", "n3": "n3:", "n4": "n4;", "n5": "n5)", "n6": "n6[x]",
     },
+    # leading / trailing blanks (get_newick writes them as '_' of an unquoted label: '_a', 'd_');
+    # only the first tip leads with a blank so that alphabetical order still follows the spec names
+    "blank": {
+        "a": " a", "b": "b c", "c": "c", "d": "d ", "e": "e  ", "f": "f ", "g": "g",
+        "n1": " n1", "n2": "n2 ", "n3": " n3 ", "n4": "n4", "n5": "n5 ", "n6": " n6",
+    },
 }
-HAS_BLANK = {"soft"}  # classes for which reading with underscore_unmunge=False is documented to differ
+HAS_BLANK = {"soft", "blank"}  # classes for which reading with underscore_unmunge=False is documented to differ
+# name classes exercised on the name-writing/reading calls only (the other calls never look at the text of a name)
+RT_ONLY_CLASSES = {"blank"}
+RT_ACTS = {"Make", "NewickRT", "NewickNamesRT", "NewickDefaultRT", "DndRT", "JsonRT", "RichDictRT"}
 
 
 class Ctx:
